@@ -407,8 +407,8 @@ Section G.
   (* ---- an object class, written in place ---- *)
   Section ObjCase.
     Hypothesis Hwc : w = WCode.
-    Hypothesis Gdef : forall x, schema_has_default (Gs x) = match elem_default x with Some _ => true | None => false end.
     Variables (n : str) (b : list str) (k : kwds elem).
+    Hypothesis Gdef : forall x, In x (ksub k) -> schema_has_default (Gs x) = match elem_default x with Some _ => true | None => false end.
     Let tail : list (str * json) := [(s_ "type", JStr (s_ "object")); (s_ "title", JStr n)].
     Let kvs := ser_kwds true true Gs k ++ tail.
     Hypothesis Hloc : local_g (fun _ => True) CElement k.
@@ -430,6 +430,12 @@ Section G.
       destruct Hloc as (_ & _ & _ & _ & _ & Hpo & _). unfold props0.
       destruct (k_properties k) as [l|]; cbn [props_okQ] in Hpo; [|split; constructor].
       destruct Hpo as [H1 H2]. split; [exact H1|]. eapply Forall_impl; [|exact H2]. intros a [Ha _]. exact Ha.
+    Qed.
+
+    Lemma props0_sub np : In np props0 -> In (p_elem (snd np)) (ksub k).
+    Proof.
+      intros Hin. unfold ksub. rewrite !in_app_iff. do 3 right. left. unfold props0 in Hin.
+      destruct (k_properties k) as [l|]; [|contradiction]. cbn [sub_props]. apply in_map_iff. exists np. auto.
     Qed.
 
     Definition pk : list (str * json) := map (fun np : str * prop elem => (p_source (snd np), Gs (p_elem (snd np)))) props0.
@@ -457,11 +463,11 @@ Section G.
       - rewrite <- Ep in *. clear Ep. split.
         + destruct (lookup name pk) as [Sp|] eqn:El; [|discriminate]. intros Hd.
           apply lookup_In in El. unfold pk in El. apply in_map_iff in El as (np & E & Hin). inversion E; subst.
-          exists np. split; [exact Hin|]. split; [reflexivity|]. rewrite Gdef in Hd. destruct (elem_default (p_elem (snd np))); [discriminate|discriminate].
+          exists np. split; [exact Hin|]. split; [reflexivity|]. rewrite (Gdef _ (props0_sub np Hin)) in Hd. destruct (elem_default (p_elem (snd np))); [discriminate|discriminate].
         + intros (np & Hin & Es & Hd).
           assert (Hl : lookup name pk = Some (Gs (p_elem (snd np)))).
           { apply In_lookup; [now rewrite Hk|]. unfold pk. apply in_map_iff. exists np. rewrite Es. auto. }
-          rewrite Hl, Gdef. destruct (elem_default (p_elem (snd np))); [reflexivity|congruence].
+          rewrite Hl, (Gdef _ (props0_sub np Hin)). destruct (elem_default (p_elem (snd np))); [reflexivity|congruence].
     Qed.
 
     Lemma Mm_spec r : In r (M_ k) <-> In r (E_ k) \/ In r (required_of_props props0).
@@ -656,6 +662,6 @@ Section Classes.
         * destruct es; [congruence|discriminate].
         * clear. induction (s_elems ser_inl es) as [|a l IHl]; simpl; [reflexivity|now rewrite IHl].
     - destruct Hloc as [Hg Hexp]. intros v Hv. cbn [ser_inl].
-      exact (eobj_meaning O w Hw_code ser_inl eq_refl ser_inl_default n b k Hg Hexp Hsubs v Hv).
+      exact (eobj_meaning O w Hw_code ser_inl eq_refl n b k (fun x _ => ser_inl_default x) Hg Hexp Hsubs v Hv).
   Qed.
 End Classes.
